@@ -53,12 +53,25 @@ Dev == [name |-> "D", fields |-> <<>>]
 CSchemas == {[structs |-> st, enums |-> en, impls |-> im, services |-> sv, devices |-> dv] :
                 st \in UpTo2([name |-> "A", fields |-> <<Fld("x", 0, U8), Fld("y", 1, U8)>>], SOne("B")),
                 en \in UpTo2(Enm("E"), Enm("F")), im \in CImpls, sv \in {<<>>, <<Svc>>}, dv \in {<<>>, <<Dev>>}}
+(* kind "visit": TypeVisitor.visit over structs with ids against declaration order / equal ids, wrappers nested to depth 2 *)
+I16 == [k |-> "i", w |-> 16]
+VBase == {U8, I16, [k |-> "f32"], [k |-> "f64"], [k |-> "str"], [k |-> "enum", name |-> "E"], St("B"), St("Z"), St("E")}
+Wrap1(T) == {[k |-> "arr", t |-> t, n |-> 2] : t \in T} \cup {[k |-> "dyn", t |-> t] : t \in T} \cup {[k |-> "opt", t |-> t] : t \in T}
+VTypes1 == VBase \cup Wrap1(VBase)
+VTypes2 == VTypes1 \cup Wrap1(Wrap1({U8, St("B"), St("Z")}))
+VIds == {<<0, 1>>, <<1, 0>>, <<3, 3>>}
+BFields == {<<Fld("p", 1, U8), Fld("q", 0, I16)>>, <<Fld("p", 0, [k |-> "enum", name |-> "E"])>>, <<Fld("p", 0, St("Z"))>>}
+VSchemas == {[structs |-> <<[name |-> "A", fields |-> <<Fld("x", ids[1], t1), Fld("y", ids[2], t2)>>], [name |-> "B", fields |-> fb]>>,
+              enums |-> <<[name |-> "E", items |-> <<[name |-> "e0", value |-> [s |-> 0, m |-> <<>>]], [name |-> "e5", value |-> [s |-> 0, m |-> <<1, 0, 1>>]]>>]>>,
+              impls |-> <<>>, services |-> <<>>, devices |-> <<>>] : ids \in VIds, t1 \in VTypes2, t2 \in VBase \cup Wrap1({U8}), fb \in BFields}
+VAsked == <<St("A"), St("B"), St("Z"), St("E"), [k |-> "enum", name |-> "E"], [k |-> "arr", t |-> St("A"), n |-> 3], [k |-> "opt", t |-> St("A")]>>
 CatsAsked == <<"struct", "enum", "impl", "field", "signal_block", "type", "service", "device", "fields", "">>
 
 Init == \/ kind = "queries" /\ sch = <<>>
         \/ kind = "xpath" /\ sch \in XSchemas
         \/ kind = "impl" /\ sch \in ISchemas
         \/ kind = "cat" /\ sch \in CSchemas
+        \/ kind = "visit" /\ sch \in VSchemas
 Next == FALSE /\ UNCHANGED vars
 Spec == Init /\ [][Next]_vars
 
@@ -67,6 +80,7 @@ XLaws == kind = "xpath" => \A q \in 1..Len(Queries) :
             /\ FoundHasLastName(sch, Queries[q].root, Queries[q].path)
 ILaws == kind = "impl" => \A a \in 1..Len(Asked) : MIODSound(sch, Asked[a])
 CLaws == kind = "cat" => CategoriesPartition(sch)
+VLaws == kind = "visit" => \A a \in 1..Len(VAsked) : VisitAgreesWithBitsOf(sch, VAsked[a]) /\ VisitRaisesOnlyOnBadReference(sch, VAsked[a])
 (* refuted on purpose (MC_Query_refute.cfg): a found field need not lie on the path that was asked for *)
 NoSkip == kind = "xpath" => \A q \in 1..Len(Queries) : FoundOnlyRealPaths(sch, Queries[q].root, Queries[q].path)
 
@@ -80,6 +94,8 @@ Emit ==
                                 mi   |-> [a \in 1..Len(Asked) |-> MatchingImpls(sch, Asked[a])],
                                 one  |-> [a \in 1..Len(Asked) |-> [s \in 1..Len(sch.structs) |-> MatchingImpl(sch, sch.structs[s].name, Asked[a])]],
                                 protocols |-> SetToSeq(Protocols(sch))]))
+      [] kind = "visit"   -> PrintT("OUT " \o ToJson([kind |-> "visit", sch |-> sch, asked |-> VAsked,
+                                terms |-> [a \in 1..Len(VAsked) |-> Visit(sch, VAsked[a], "r")]]))
       [] kind = "cat"     -> PrintT("OUT " \o ToJson([kind |-> "cat", sch |-> sch,
                                 cats |-> [c \in 1..Len(CatsAsked) |-> GetCategory(sch, CatsAsked[c])]]))
 =============================================================================
